@@ -466,6 +466,18 @@ def _queue_shapes(fb, R, rec, fns, F, cons, prod, all_raw=()):
                 pf = c.get('_predfn') or g
                 ds = _disjuncts(pf, pred)
                 ok = any(_reads_flag_negated(pf, d, F) for d in ds) and any(_is_not_empty(pf, d, F) for d in ds)
+                if ok and timed:
+                    # wait_for/wait_until return with the predicate FALSE on timeout: only sound when the result is re-tested in a loop
+                    pm = fn.parent_map()
+                    p_ = pm.get(c['id'])
+                    while p_ is not None and fn.nodes[p_].get('k') in ('wrap', 'icast', 'unop'):
+                        p_ = pm.get(p_)
+                    tested = any(b.get('cond') is not None and c['id'] in set(fn.subtree(b['cond'])) for b in fn.blocks.values())
+                    R.check(bool(in_cfg_loop(fn, c['id'])) and tested, 'Q4-consumer-wait-not-timed-out', '%s#wait' % fn.q, fn.loc(c['id']),
+                            'consumer wait in %s is timed and its result is not re-tested in a loop: on timeout the function goes on with an '
+                            'empty queue that is still in use and the caller gets a default-constructed element (taken for end of data)' % fn.q)
+                else:
+                    R.ok('Q4-consumer-wait-not-timed-out', '%s#wait' % fn.q, fn.loc(c['id']))
             elif g is None and not timed and len(c.get('args', [])) == 1:
                 # bare wait(lock): equivalent to a predicate wait iff it sits in a loop that re-tests `in_use && queue.empty()`
                 inloop = in_cfg_loop(fn, c['id'])
@@ -814,6 +826,7 @@ def run(ctx):
     R.expect('Q2-insert-notifies-consumers', 1)
     R.expect('Q3-remove-notifies-producers', 2)
     R.expect('Q4-consumer-predicate', 1)
+    R.expect('Q4-consumer-wait-not-timed-out', 1)
     R.expect('Q4-removal-guarded-by-nonempty', 2)
     R.expect('Q5-shutdown-notify_all', 1)
     R.expect('Q6-front-before-pop', 3)
